@@ -48,6 +48,14 @@ import (
 //           (a slow SHIP writer; the stack holds its callback mutex there); the verdict is released, W1's
 //           own timeout passes, the writer is released. This puts a verdict between "W1's timer fired" and
 //           "W1's timeout function ran". Exactly one outcome per write.
+//   reconnect (x_c10c12_stale.go) k in {2,3}: writes of a connection collect up to k-1 approvals and time out, the connection
+//           is removed and set up again with the same SKI, the writes are re-sent with the same message counters (long
+//           timeout): judged at the return of every single verdict call - not applied before all k callbacks approved.
+//   removals a stream of writes approved at once by k in {1,2} callbacks (from the goroutine the stack runs them on)
+//           while unrelated remote entities are announced as removed and added again by another peer, by the writer
+//           itself between its writes, and by application goroutines calling DeviceLocal.CleanRemoteEntityCaches:
+//           every write is presented once, applied once, acknowledged once; a call that does not return is left to the
+//           parent's goroutine dump (hang@<frame>).
 
 const (
 	c12Fn    = model.FunctionTypeLoadControlLimitListData
@@ -81,13 +89,17 @@ func init() {
 			"1-6 writes pending together each with ack flag, per-callback verdict vector over approve/deny/silent/late-approve/late-deny and a timing class long|short|natural|gateT|duel, delivery order and 1-3 delivering goroutines). " +
 			"Part 'vectors' enumerates all 39 verdict vectors over approve/deny/silent for k<=3 (thorough: x ack x neighbour), part 'interleave' all 24 orders x 16 verdict assignments of four deliveries over two pending writes (thorough: all 768 incl. two writers; quick: a seeded 64), " +
 			"parts 'mixed' and 'gate' draw plans from the case PRNG; part 'expiry' parks the timeout function of a helper write inside a blocked connection writer while the deciding verdict of another write is released and that write's own timeout passes; " +
-			"part 'aimed' runs 40-60 cheap trials per case (timeout 2-4 ms, deciding verdict delivered by a spinning goroutine at the deadline +- jitter, aim following the outcomes, three cases in four with the feature's callback mutex contended by concurrent AddResponseCallback calls). A case is non-trivial if every write of the plan was decided (all its callbacks seen, its outcome judged) with nothing inconclusive; distinct = distinct plan shapes (values and counters excluded).",
+			"part 'aimed' runs 40-60 cheap trials per case (timeout 2-4 ms, deciding verdict delivered by a spinning goroutine at the deadline +- jitter, aim following the outcomes, three cases in four with the feature's callback mutex contended by concurrent AddResponseCallback calls); " +
+			"part 'reconnect': k in {2,3}, 1-2 writes collect j<k approvals (mostly k-1) and time out (15|25|40 ms), the connection is removed and set up again with the same SKI, the writes are re-sent with the same counters (timeout 30 min) and decided one verdict call at a time in a drawn order " +
+			"(all approve, or one denial after at least one approval), every write judged after every call; part 'removals': 300 (thorough 800) writes approved at once by k in {1,2} callbacks while entity [2] of the other peer / of the writer is announced as removed and added again and 0-2 application goroutines call DeviceLocal.CleanRemoteEntityCaches, " +
+			"non-trivial if all writes were handed over and at least one removal/cleanup call ran meanwhile. A case is non-trivial if every write of the plan was decided (all its callbacks seen, its outcome judged) with nothing inconclusive; distinct = distinct plan shapes (values and counters excluded).",
 		Assumptions: []string{
 			"message handling up to the spawning of the approval callbacks is synchronous in HandleSpineMesssage; the callbacks themselves run on goroutines of the stack and are awaited by goroutine-count quiescence",
 			"a write is identified by the unique value it carries; all writes of a case address different existing changeable elements through a partial filter (a write adding an identifier would be acknowledged without being applied, DESIGN.md D7)",
 			"a write whose binding is removed while it is pending stays authorised (it was authorised when it came in); this is how two peers get pending writes on one feature",
 			"a write datagram without msgCounter cannot be answered by reference; for it only 'answering the callback does not panic or wedge the feature' is asserted",
 			"SetWriteApprovalTimeout is called only while no message is being handled",
+			"part 'removals': the removed and re-added entities never sent a write, so no pending approval refers to them; the writes are sequential on one connection, their approvals run on the goroutines the stack starts for the callbacks; 'applied once' is read off the core-level data change events (one per write value)",
 		},
 		Parts: []rig.Part{
 			{Name: "vectors", Cases: pick(39, 39*2*3), Run: c12Vectors, Quiet: 90 * time.Second},
@@ -96,6 +108,8 @@ func init() {
 			{Name: "gate", Cases: pick(60, 1200), Run: c12Gate, Quiet: 90 * time.Second},
 			{Name: "expiry", Cases: pick(40, 300), Run: c12Expiry, Quiet: 90 * time.Second},
 			{Name: "aimed", Cases: pick(160, 800), Run: c12Aimed, Quiet: 90 * time.Second, Procs: 4, Workers: 8},
+			{Name: "reconnect", Cases: pick(48, 600), Run: c12Reconnect, Quiet: 90 * time.Second},
+			{Name: "removals", Cases: pick(16, 120), Run: c12Removals, Quiet: 90 * time.Second},
 			{Name: "mixed-race", Race: true, Cases: pick(30, 400), Run: c12Mixed, Quiet: 120 * time.Second},
 			{Name: "gate-race", Race: true, Cases: pick(20, 300), Run: c12Gate, Quiet: 120 * time.Second},
 			{Name: "expiry-race", Race: true, Cases: pick(10, 60), Run: c12Expiry, Quiet: 120 * time.Second},
@@ -1775,4 +1789,247 @@ func (cw *c12World) aimedAudit() {
 			cw.c.Violate("data/element-differs-from-outcomes", "element %d holds %d (present=%v), the outcomes observed imply %d", el, v, ok, cw.expect[0][el])
 		}
 	}
+}
+
+// part "reconnect": approvals counted for a write that timed out on a connection that was removed since must not
+// count for the write with the same message counter on the next connection of the same SKI (x_c10c12_stale.go):
+// "applied if and only if every callback approves it", judged at the return of every single verdict call.
+func c12Reconnect(c *rig.Ctx) { xStaleApprovals(c, c.Rand, "reconnect", false) }
+
+// part "removals": "every write gets exactly one of these outcomes ... regardless" of what else the stack is doing.
+// A bound peer sends a stream of writes to a server feature whose k in {1,2} approval callbacks approve at once
+// (they call ApproveOrDenyWrite from the goroutine the stack runs them on, timeout 1 h), while entities that have
+// nothing to do with those writes are announced as removed and added again: by another peer on its own connection,
+// by the writing peer itself between its writes, and/or by application goroutines calling
+// DeviceLocal.CleanRemoteEntityCaches (which is what a removal runs on every local feature). Every write must be
+// presented once to each callback, be applied exactly once (one data change event carrying its value) and be
+// acknowledged exactly once. A call that does not return keeps the case waiting for the parent's goroutine dump
+// (hang@<frame> if goroutines are parked on the stack's own locks).
+func c12Removals(c *rig.Ctx) {
+	r := c.Rand
+	k := 1 + r.Intn(2)
+	n := c.Pick(300, 800)
+	other, same, direct := r.Intn(3) != 0, r.Intn(2) == 0, r.Intn(3) != 0
+	if !other && !direct {
+		direct = true
+	}
+	nDirect := 0
+	if direct {
+		nDirect = 1 + r.Intn(2)
+	}
+	w := rig.NewWorld(c.Tag())
+	closeOK := true
+	defer func() {
+		if closeOK {
+			w.Close()
+		}
+	}()
+	e := w.AddEntity(model.EntityTypeTypeCEM, []uint{1}, 4*time.Second)
+	fl := e.GetOrAddFeature(model.FeatureTypeTypeLoadControl, model.RoleTypeServer).(*spine.FeatureLocal)
+	fl.AddFunctionType(c12Fn, true, true)
+	var items []model.LoadControlLimitDataType
+	for i := 1; i <= c12Elems; i++ {
+		items = append(items, model.LoadControlLimitDataType{LimitId: util.Ptr(model.LoadControlLimitIdType(i)), IsLimitChangeable: util.Ptr(true),
+			Value: &model.ScaledNumberType{Number: util.Ptr(model.NumberType(i))}})
+	}
+	fl.SetData(c12Fn, &model.LoadControlLimitListDataType{LoadControlLimitData: items})
+	fl.SetWriteApprovalTimeout(time.Hour)
+	var mu sync.Mutex
+	inv := map[model.MsgCounterType][]int{} // write -> invocations per callback
+	mkCB := func(cb int) api.WriteApprovalCallbackFunc {
+		return func(m *api.Message) {
+			if m == nil || m.RequestHeader == nil || m.RequestHeader.MsgCounter == nil {
+				return
+			}
+			mu.Lock()
+			if inv[*m.RequestHeader.MsgCounter] == nil {
+				inv[*m.RequestHeader.MsgCounter] = make([]int, k)
+			}
+			inv[*m.RequestHeader.MsgCounter][cb]++
+			mu.Unlock()
+			fl.ApproveOrDenyWrite(m, model.ErrorType{})
+		}
+	}
+	// (two separate literals: a stack that compares callbacks by code pointer must not see them as one)
+	_ = fl.AddWriteApprovalCallback(mkCB(0))
+	if k == 2 {
+		cb1 := mkCB(1)
+		_ = fl.AddWriteApprovalCallback(func(m *api.Message) { cb1(m) })
+	}
+	tree := []rig.FS{rig.NMFS, {Ent: []uint{1}, Id: 1, Typ: model.FeatureTypeTypeLoadControl, Role: model.RoleTypeClient},
+		{Ent: []uint{2}, Id: 1, Typ: model.FeatureTypeTypeMeasurement, Role: model.RoleTypeServer}}
+	ent2 := tree[2:]
+	var peers []*rig.Peer
+	for i := 0; i < 2; i++ {
+		p := w.AddPeer(i)
+		p.Ctr = uint64(100000 * (i + 1))
+		p.Announce(tree)
+		mc := p.Subscribe(rig.FA(p.Addr, []uint{1}, 1), fl.Address(), model.FeatureTypeTypeLoadControl)
+		if res := rig.Classify(p.Tap.Take(), mc); res.Success != 1 {
+			c.Inconclusive("setup: subscription of peer%d not granted (%s)", i, res)
+			return
+		}
+		peers = append(peers, p)
+	}
+	P, Q := peers[0], peers[1]
+	P.Bind(rig.FA(P.Addr, []uint{1}, 1), fl.Address(), model.FeatureTypeTypeLoadControl)
+	if !w.Local.BindingManager().HasLocalFeatureRemoteBinding(fl.Address(), rig.FA(P.Addr, []uint{1}, 1)) {
+		c.Inconclusive("setup: binding of the writer not granted")
+		return
+	}
+	P.Tap.Take()
+	w.Core.Take()
+	baseline := c12Settle()
+	desc := fmt.Sprintf("k=%d callbacks approving at once, %d writes; removals+additions of entity [2]: by the other peer=%v, by the writer between its writes=%v, DeviceLocal.CleanRemoteEntityCaches on %d application goroutines", k, n, other, same, nDirect)
+	c.Shape(fmt.Sprintf("removals k=%d other=%v same=%v direct=%d", k, other, same, nDirect))
+
+	removeAdd := func(p *rig.Peer, i int) {
+		if i%2 == 0 {
+			p.NotifyDiscovery(true, p.Discovery(nil, nil, [][]uint{{2}}))
+		} else {
+			p.NotifyDiscovery(true, p.Discovery(ent2, map[string]model.NetworkManagementStateChangeType{fmt.Sprint([]uint{2}): model.NetworkManagementStateChangeTypeAdded}, nil))
+		}
+	}
+	var stop atomic.Bool
+	var nRemovals atomic.Int64
+	var wg sync.WaitGroup
+	stuck := func(what string) {
+		closeOK = false
+		c17Stuck(c, what+" ("+desc+")")
+	}
+	side := func(name string, step func(i int)) {
+		wg.Add(1)
+		go func() {
+			defer wg.Done()
+			for i := 0; !stop.Load(); i++ {
+				i := i
+				if ok, pan := rig.Guard(60*time.Second, func() { step(i) }); pan != "" {
+					c.Violate("removals/panic", "%s panicked: %s", name, pan)
+					return
+				} else if !ok {
+					stuck(name)
+				}
+				nRemovals.Add(1)
+			}
+		}()
+	}
+	if other {
+		side("removal/addition notify of the other peer", func(i int) { removeAdd(Q, i) })
+	}
+	for g := 0; g < nDirect; g++ {
+		addr := rig.EA([]string{Q.Addr, P.Addr}[g%2], []uint{2})
+		side("DeviceLocal.CleanRemoteEntityCaches", func(i int) {
+			w.Local.CleanRemoteEntityCaches(addr)
+			if i%16 == 0 {
+				runtime.Gosched()
+			}
+		})
+	}
+	type sent struct {
+		mc   model.MsgCounterType
+		elem int
+		val  int64
+	}
+	var writes []sent
+	for i := 0; i < n; i++ {
+		wr := sent{elem: 1 + i%c12Elems, val: int64(1000 + i)}
+		if ok, pan := rig.Guard(60*time.Second, func() {
+			wr.mc = P.Send(model.CmdClassifierTypeWrite, rig.FA(P.Addr, []uint{1}, 1), fl.Address(), true, nil, c12WriteCmd(wr.elem, wr.val))
+			if same && i%2 == 1 {
+				removeAdd(P, i/2)
+			}
+		}); pan != "" {
+			c.Violate("removals/panic", "handling write %d panicked: %s", i, pan)
+			break
+		} else if !ok {
+			stuck(fmt.Sprintf("handling of write %d of the bound peer", i))
+		}
+		writes = append(writes, wr)
+		if i%64 == 63 {
+			c.Progress()
+		}
+	}
+	stop.Store(true)
+	if !waitWG(&wg, 90*time.Second) {
+		stuck("a goroutine announcing removals")
+	}
+	if np := P.PanicCount() + Q.PanicCount(); np > 0 {
+		c.Violate("removals/panic", "panic while handling a message: %v %v", P.Panics, Q.Panics)
+		return
+	}
+	if !rig.WaitQuiet(baseline, 30*time.Second) {
+		// approvals still running 30 s after the last write was handed over: let the parent look at the goroutines
+		stuck("approval callbacks (goroutines of the stack) after the last write")
+	}
+	// ---- one outcome per write
+	evs := map[int64]int{}
+	for _, ev := range w.Core.Take() {
+		if ev.P.EventType != api.EventTypeDataChange || ev.P.CmdClassifier == nil || *ev.P.CmdClassifier != model.CmdClassifierTypeWrite {
+			continue
+		}
+		if d, _ := ev.P.Data.(*model.LoadControlLimitListDataType); d != nil && len(d.LoadControlLimitData) == 1 && d.LoadControlLimitData[0].Value != nil && d.LoadControlLimitData[0].Value.Number != nil {
+			evs[int64(*d.LoadControlLimitData[0].Value.Number)]++
+		}
+	}
+	outs := P.Tap.Take()
+	byRef := map[model.MsgCounterType][2]int{}
+	for _, d := range outs {
+		if d.Header.MsgCounterReference == nil || d.Header.CmdClassifier == nil || *d.Header.CmdClassifier != model.CmdClassifierTypeResult || len(d.Payload.Cmd) != 1 || d.Payload.Cmd[0].ResultData == nil {
+			continue
+		}
+		x := byRef[*d.Header.MsgCounterReference]
+		if en := d.Payload.Cmd[0].ResultData.ErrorNumber; en != nil && *en != 0 {
+			x[1]++
+		} else {
+			x[0]++
+		}
+		byRef[*d.Header.MsgCounterReference] = x
+	}
+	bad := 0
+	mu.Lock()
+	for i, wr := range writes {
+		c.Events(3)
+		res := byRef[wr.mc]
+		var calls []int
+		calls = append(calls, inv[wr.mc]...)
+		okCalls := len(calls) == k
+		for _, x := range calls {
+			if x != 1 {
+				okCalls = false
+			}
+		}
+		switch {
+		case bad >= 3:
+		case !okCalls:
+			bad++
+			c.Violate("removals/callback-not-invoked-exactly-once", "write %d (counter %d): invocations per callback %v, expected once each of %d; %s", i, wr.mc, calls, k, desc)
+		case res[0] != 1 || res[1] != 0 || evs[wr.val] != 1:
+			bad++
+			c.Violate("removals/approved-write-without-exactly-one-outcome", "write %d (counter %d, element %d := %d) was approved at once by all %d callbacks (timeout 1 h): %d success results, %d error results, applied %d times (data change events); %s",
+				i, wr.mc, wr.elem, wr.val, k, res[0], res[1], evs[wr.val], desc)
+		}
+	}
+	mu.Unlock()
+	d, _ := fl.DataCopy(c12Fn).(*model.LoadControlLimitListDataType)
+	for el := 1; el <= c12Elems && d != nil; el++ {
+		okV := false
+		var got int64 = -1
+		for _, it := range d.LoadControlLimitData {
+			if it.LimitId != nil && int(*it.LimitId) == el && it.Value != nil && it.Value.Number != nil {
+				got = int64(*it.Value.Number)
+			}
+		}
+		for _, wr := range writes {
+			if wr.elem == el && wr.val == got {
+				okV = true
+			}
+		}
+		if !okV && len(writes) >= c12Elems && bad == 0 {
+			c.Violate("removals/element-holds-a-value-nobody-wrote", "element %d holds %d after %d applied writes; %s", el, got, len(writes), desc)
+		}
+	}
+	c.Count("removals:writes", int64(len(writes)))
+	c.Count("removals:removal_or_cleanup_calls_during_the_writes", nRemovals.Load())
+	c.NonTrivial(len(writes) == n && nRemovals.Load() > 0)
+	c.Sample(map[string]any{"case": desc, "writes": len(writes), "removal_or_cleanup_calls_during_the_writes": nRemovals.Load()})
 }
